@@ -19,7 +19,7 @@ ASSUMPTIONS = ["the slew limit per sample is v_per_sec*fs in data units (the fun
                "limit' case is not asserted (property: exceed; code: >=)",
                "exact-zero of the mute on a flagged sample is asserted to 1e-9 (FFT-based convolution may leave 1e-16)"]
 REQUIRED = {"contract:saturation_post": 300, "flags_compared": 300, "mute_zero_checked": 100, "same_flags_same_mute": 20,
-            "boundary_at_threshold": 50, "reader_ranges_checked": 16, "pipeline_runs": 2, "slew_only_twins": 20, "arrays_shorter_than_taper": 10}
+            "boundary_at_threshold": 50, "reader_ranges_checked": 16, "pipeline_runs": 2, "slew_only_twins": 20, "arrays_shorter_than_taper": 10, "pipeline_subset_runs": 2}
 CASE_TIMEOUT = 120.0
 
 _VIOL = []
@@ -243,9 +243,23 @@ def pipeline_case(case, V, res, rng):
         a = max(0, min(a, ns - ln))
         raw[a:a + ln, :] = (rec.maxint - 1) * int(rng.choice([-1, 1]))
         runs.append((a, a + ln))
-    rec.raw = np.ascontiguousarray(np.c_[raw, G.sync_words(rng, (ns, 1))])
+    sync = G.sync_words(rng, (ns, 1))
+    # runs on a SUBSET of the channels, one channel above / exactly at the proportion (13 and 12 of 64 at 20 %), while the sync word is quiet: the
+    # proportion counts the voltage channels the range is given for
+    kc = kcrit_of(0.2, n)
+    for kk_ in (kc + 1, kc):
+        a = int(rng.integers(700, ns - 700))
+        ln = int(rng.integers(8, 25))
+        if any(a < e + 40 and a + ln > s0 - 40 for s0, e in runs):
+            continue
+        ch = rng.choice(n, kk_, replace=False)
+        raw[a:a + ln, ch] = (rec.maxint - 1) * int(rng.choice([-1, 1]))
+        sync[a - 2:a + ln + 2] = 0
+        runs.append((a, a + ln))
+        res.count("pipeline_subset_runs")
+    rec.raw = np.ascontiguousarray(np.c_[raw, sync])
     b = G.write(rec, d / "rec")
-    label = f"{kind} imMaxInt={rec.maxint} ns={ns} nbatch={nbatch}: full-scale runs at {runs}"
+    label = f"{kind} imMaxInt={rec.maxint} ns={ns} nbatch={nbatch}: full-scale runs at {runs} (the last ones on {kc + 1} / {kc} of {n} channels)"
     try:
         out = d / "out" / "destriped.bin"
         out.parent.mkdir()
